@@ -147,7 +147,8 @@ structure Hom (D : Dom α) (E : Dom β) (f : α → β) : Prop where
   app : ∀ g l, f (D.app g l) = E.app g (l.map f)
 
 theorem evalHom (I : Interp) : Hom domT (domV I) (Term.eval I) :=
-  ⟨fun _ => rfl, fun _ => rfl, rfl, fun g l => by simp [domT, domV, Term.eval]⟩
+  ⟨fun _ => by simp [domT, domV, Term.eval], fun _ => by simp [domT, domV, Term.eval], by simp [domT, domV, Term.eval],
+   fun g l => by simp [domT, domV, Term.eval]⟩
 
 theorem storeTarget_map (f : α → β) (loops : List (α × List Nat)) (a : Nat) :
     storeTarget (loops.map fun p => (f p.1, p.2)) a = (storeTarget loops a).map fun p => (f p.1, p.2) := by
@@ -255,8 +256,8 @@ theorem step_sound (I : Interp) (code : List Instr) (s : St Term) :
   rw [act_map (evalHom I) code s]
   cases act domT code s with
   | res r => simp [Act.map]
-  | askTruth t k => simp only [Act.map, Tree.run_test, Q.eval]; split <;> simp_all
-  | askIs t u k => simp only [Act.map, Tree.run_test, Q.eval]; split <;> simp_all
+  | askTruth t k => cases hb : I.truth (t.eval I) <;> simp [Act.map, Q.eval, hb]
+  | askIs t u k => cases hb : I.isVal (t.eval I) (u.eval I) <;> simp [Act.map, Q.eval, hb]
 
 theorem sexec_sound (I : Interp) (code : List Instr) : ∀ (fuel : Nat) (s : St Term),
     ((sexec code fuel s).run I).map (Term.eval I) = exec I code fuel (s.map (Term.eval I))
@@ -274,27 +275,25 @@ theorem cmpSym_sound (I : Interp) (o : CmpOp) (t u : Term) :
     ((cmpSym o t u).run I).eval I = I.cmpVal o (t.eval I) (u.eval I) := by
   cases o with
   | named f => simp [cmpSym, Interp.cmpVal, Term.eval]
-  | isin neg => simp only [cmpSym, Interp.cmpVal, Tree.run_test, Q.eval, Term.eval, List.map]; split <;> simp_all [Term.eval]
-  | is neg => simp only [cmpSym, Interp.cmpVal, Tree.run_test, Q.eval]; split <;> simp_all [Term.eval]
+  | isin neg => cases hb : I.truth (I.op "in" [t.eval I, u.eval I]) <;> simp [cmpSym, Interp.cmpVal, Q.eval, Term.eval, hb]
+  | is neg => cases hb : I.isVal (t.eval I) (u.eval I) <;> simp [cmpSym, Interp.cmpVal, Q.eval, Term.eval, hb]
 
 mutual
 theorem Expr.sym_sound (I : Interp) : ∀ (e : Expr), (e.sym.run I).eval I = e.eval I
-  | .atom n => rfl
-  | .bool b => rfl
-  | .none => rfl
+  | .atom n => by simp [Expr.sym, Expr.eval, Term.eval]
+  | .bool b => by simp [Expr.sym, Expr.eval, Term.eval]
+  | .none => by simp [Expr.sym, Expr.eval, Term.eval]
   | .not e => by
-      simp only [Expr.sym, Expr.eval, Tree.run_bind, Tree.run_test, Q.eval]
-      rw [Expr.sym_sound I e]
-      split <;> simp_all [Term.eval]
+      have ih := Expr.sym_sound I e
+      cases hb : I.truth (e.eval I) <;> simp [Expr.sym, Expr.eval, Tree.run_bind, Q.eval, ih, hb, Term.eval]
   | .boolop isOr a r => by
       simp only [Expr.sym, Expr.eval, Tree.run_bind]
       rw [Args.symBool_sound I isOr r, Expr.sym_sound I a]
   | .ife c t f => by
-      simp only [Expr.sym, Expr.eval, Tree.run_bind, Tree.run_test, Q.eval]
-      rw [Expr.sym_sound I c]
-      split
-      · exact Expr.sym_sound I t
-      · exact Expr.sym_sound I f
+      have ih := Expr.sym_sound I c
+      have iht := Expr.sym_sound I t
+      have ihf := Expr.sym_sound I f
+      cases hb : I.truth (c.eval I) <;> simp [Expr.sym, Expr.eval, Tree.run_bind, Q.eval, ih, iht, ihf, hb]
   | .cmp a r => by
       simp only [Expr.sym, Expr.eval, Tree.run_bind]
       rw [CmpRest.symChain_sound I r, Expr.sym_sound I a]
@@ -302,49 +301,38 @@ theorem Expr.sym_sound (I : Interp) : ∀ (e : Expr), (e.sym.run I).eval I = e.e
       simp only [Expr.sym, Expr.eval, Tree.run_bind, Tree.run_leaf, Term.eval]
       rw [Args.symList_sound I args]
 theorem Args.symList_sound (I : Interp) : ∀ (r : Args), (r.symList.run I).map (Term.eval I) = r.evalList I
-  | .nil => rfl
+  | .nil => by simp [Args.symList, Args.evalList]
   | .cons e r => by
       simp only [Args.symList, Args.evalList, Tree.run_bind, Tree.run_leaf, List.map]
       rw [Expr.sym_sound I e, Args.symList_sound I r]
 theorem Args.symBool_sound (I : Interp) (isOr : Bool) : ∀ (r : Args) (t : Term),
     ((Args.symBool isOr t r).run I).eval I = Args.evalBool I isOr (t.eval I) r
-  | .nil, _ => rfl
+  | .nil, _ => by simp [Args.symBool, Args.evalBool]
   | .cons e r, t => by
-      simp only [Args.symBool, Args.evalBool]
-      cases isOr
-      · simp only [Bool.false_eq_true, if_false, Tree.run_test, Q.eval]
-        cases htr : I.truth (t.eval I)
-        · simp
-        · simp only [if_true, Tree.run_bind]
-          rw [Args.symBool_sound I false r, Expr.sym_sound I e]
-          simp
-      · simp only [if_true, Tree.run_test, Q.eval]
-        cases htr : I.truth (t.eval I)
-        · simp only [Bool.false_eq_true, if_false, Tree.run_bind]
-          rw [Args.symBool_sound I true r, Expr.sym_sound I e]
-          simp
-        · simp
+      have ihe := Expr.sym_sound I e
+      have ihr := Args.symBool_sound I isOr r (e.sym.run I)
+      cases isOr <;> cases htr : I.truth (t.eval I) <;>
+        simp [Args.symBool, Args.evalBool, Tree.run_bind, Q.eval, htr, ihe, ihr] <;> simp [← ihe, ihr]
 theorem CmpRest.symChain_sound (I : Interp) : ∀ (r : CmpRest) (t : Term),
     ((CmpRest.symChain t r).run I).eval I = CmpRest.evalChain I (t.eval I) r
   | .last o e, t => by
       simp only [CmpRest.symChain, CmpRest.evalChain, Tree.run_bind]
       rw [cmpSym_sound, Expr.sym_sound I e]
   | .more o e r, t => by
-      simp only [CmpRest.symChain, CmpRest.evalChain, Tree.run_bind, Tree.run_test, Q.eval]
-      rw [cmpSym_sound, Expr.sym_sound I e]
-      split
-      · rw [CmpRest.symChain_sound I r, Expr.sym_sound I e]
-      · simp [cmpSym_sound, Expr.sym_sound I e]
+      have ihe := Expr.sym_sound I e
+      have ihr := CmpRest.symChain_sound I r (e.sym.run I)
+      have hc := cmpSym_sound I o t (e.sym.run I)
+      rw [ihe] at hc ihr
+      cases hb : I.truth (I.cmpVal o (t.eval I) (e.eval I)) <;>
+        simp [CmpRest.symChain, CmpRest.evalChain, Tree.run_bind, Q.eval, hc, hb, ihr]
 end
 
 theorem symIfs_sound (I : Interp) : ∀ (cs : List Expr), (symIfs cs).run I = evalIfs I cs
   | [] => rfl
   | c :: cs => by
-      simp only [symIfs, evalIfs, Tree.run_bind, Tree.run_test, Q.eval]
-      rw [Expr.sym_sound I c]
-      split
-      · exact symIfs_sound I cs
-      · rfl
+      have ih := Expr.sym_sound I c
+      have ihs := symIfs_sound I cs
+      cases hb : I.truth (c.eval I) <;> simp [symIfs, evalIfs, Tree.run_bind, Q.eval, ih, ihs, hb]
 
 theorem symClauses_sound (I : Interp) (elt : Expr) : ∀ (cl : List Clause) (loops : List (Term × List Nat)),
     ((symClauses elt loops cl).run I).map (Term.eval I) = evalClauses I elt (loops.map fun p => (p.1.eval I, p.2)) cl
